@@ -404,6 +404,11 @@ fn main() {
             use skv_verif::engine_sched::{sched_prop, Flavor};
             run_model(vec![(sched_prop("C11", Flavor::C11), 2500, 50000)], tier, replay)
         }
+        "C17L" => {
+            // debug: only the lock-order flavour of C17
+            use skv_verif::engine_sched::{sched_prop, Flavor};
+            run_model(vec![(sched_prop("C17", Flavor::C17Locks), 1500, 30000)], tier, replay)
+        }
         "C01E" => {
             // debug: only the systematic enumeration of C01 (thorough = at most 2 pre-emptions)
             use skv_verif::engine_sched::{sched_prop, Flavor};
